@@ -9,7 +9,11 @@ META = {
                   "UTF-8 string of <= 2 bytes x 4 hash types in thorough / a seed-rotated residue class in quick, keys covering every low byte x "
                   "lengths 0..17 x buffer classes, random longer ones, HET hashes x 6 widths, one-at-a-time hashes, the convenience wrappers calculate_mpq_hashes/calculate_het_hashes, "
                   "and the byte-level / SIMD entry points simd::scalar::hash_string_scalar, SimdOps::hash_string_simd, jenkins_hash_batch -- through which EVERY byte string of <= 2 bytes over all 256 values is reachable) is compared with the reference by TLC in trace validation; "
-                  "the inverse and fold-invariance laws are additionally model-checked on the reference itself.",
+                  "the inverse and fold-invariance laws are additionally model-checked on the reference itself. "
+                  "Round 4: the Jenkins pair at EVERY table width 1..64 (HetW events, MpqCrypto!HetOfFull), the bodies of the extended tables read through HetTable::read / BetTable::read "
+                  "for every body length mod 4, plain and compressed, five key classes (Tbl events, MpqCrypto!TblStore/TblLoad), and encrypted files written by ArchiveBuilder and read through "
+                  "Archive::read_file with the zero key placed on every cipher unit of the file (offset table = key-1, first, second, last sector, none; FIX_KEY name/size searched by the driver, "
+                  "the final key recomputed by TLC from the logged name, position and size; EncFile events, MpqCrypto!FileStoreRaw/FileLoadOffsets).",
     "level_note": "Trusted: TLC's evaluation of MpqCrypto.tla (limb arithmetic in Word32.tla, checked against the published vectors in MC_MpqCrypto); "
                   "hash_string takes &str, so strings containing bytes 0xC0, 0xC1, 0xF5-0xFF are hashed only through the byte-level entry points (feature simd) and the pub fold tables; jenkins_hash is accepted as either the published 32-bit one-at-a-time value or the library's 64-bit-accumulator variant (named deviation Oaat64).",
     "technique": "TLA+ reference implementation (MpqCrypto.tla) evaluated by TLC; trace validation of library outputs against it",
@@ -53,12 +57,14 @@ def run(ctx, cases_override=None):
         "events_by_kind": kinds,
         "cases_generated_by_tlc": ncases,
         "evaluations": res["events"] - res["traces"],
-        "distinct_nontrivial": sum(v for k, v in kinds.items() if k in ("Hash", "HashB", "Enc", "EncBytes", "Het", "Oaat", "Wrap")),
-        "rule": "one evaluation = one library call result compared by TLC with MpqCrypto.tla; non-trivial = Hash/HashB/Enc/EncBytes/Het/Oaat/Wrap events (distinct inputs by construction: enumeration or seeded generation without repetition of (case,index))",
+        "distinct_nontrivial": sum(v for k, v in kinds.items() if k in ("Hash", "HashB", "Enc", "EncBytes", "Het", "Oaat", "Wrap", "HetW", "Tbl", "EncFile")),
+        "rule": "one evaluation = one library call result compared by TLC with MpqCrypto.tla; non-trivial = Hash/HashB/Enc/EncBytes/Het/Oaat/Wrap/HetW/Tbl/EncFile events (distinct inputs by construction: enumeration or seeded generation without repetition of (case,index))",
         "exhaustive": False,
     }
     assumptions = ["hash_string accepts only valid UTF-8 (&str): strings with bytes 0xC0,0xC1,0xF5..0xFF are unreachable through the API",
-                   "HET/BET folding follows the library (upper case, backslash)"]
+                   "HET/BET folding follows the library (upper case, backslash)",
+                   "NameHash1 at table widths < 8 is not defined by the reference (shift by width-8); only the masked file hash is compared there",
+                   "a cipher unit whose key is exactly 0 is stored in the clear by the library (named deviation of MpqCrypto!EncryptBlock); every other unit of such a file must still be encrypted with its own key"]
     return core.finish(ctx, "translation_validation", cov, assumptions, res["bad"], sig_fn=sig, trace=trace)
 
 
